@@ -124,7 +124,11 @@ def handler : Handler := fun op j =>
     let again := (fBool? j "again").getD false
     let jEv (e : StepEv) : Json := jArr [jN e.step, jN e.batch, jB e.logged, jN e.epoch, jB e.ckpt]
     let jOut (o : SessionOut) : Json := jObj [("offset", jN o.offset), ("events", jArr (o.events.map jEv)),
-      ("eval_batches", jN o.evalBatches), ("dir", dirSteps o.dir)]
+      ("eval_batches", jN o.evalBatches), ("dir", dirSteps o.dir),
+      -- the loop run one iteration at a time: (logged step, len(train_metrics)) and what is left at the end
+      ("windows", jArr ((loopRun c o.offset).windows.map (fun w => jArr [jN w.1, jN w.2]))),
+      ("metrics_left", jN (loopRun c o.offset).metrics),
+      ("loop_steps", jNs ((loopRun c o.offset).evs.map (·.step)))]
     match trainSession keep c d with
     | .error e => some (err e.toString)
     | .ok o =>
